@@ -97,7 +97,10 @@ def strategy_(draw, tier):
               'force': draw(st.booleans())}
              for _ in range(draw(st.integers(1, 3)))]
     return {'parts': parts, 'embed_path': draw(st.sampled_from(PATHS)),
-            'merges': merges, 'override': override, 'calls': calls}
+            'merges': merges, 'override': override, 'calls': calls,
+            # the composite merged into is built from a config that names only
+            # some of its parts (as Composer.generate does: no 'state')
+            'target_partial': draw(st.booleans())}
 
 
 def strategy(tier):
@@ -261,7 +264,17 @@ def prune(tree):
 def check_merges(spec, res, ctx):
     from vivarium.core.composer import Composite
     sources = [make_composite(d, 0, nested=True) for d in spec['parts']]
-    target = Composite({})
+    def new_target():
+        if spec.get('target_partial'):
+            return Composite({'processes': {}, 'topology': {}})
+        return Composite({})
+    target = new_target()
+    for k in KEYS:
+        if target[k] != {}:
+            res.fail('merge.fresh_not_empty', 'a composite built from an '
+                     'empty config holds %s = %r' % (k, describe(target[k])),
+                     'datum.py:__init__')
+            return
     expected = {k: {} for k in KEYS}
     merged_in = []       # (composite, snapshot)
     touched = {}
@@ -317,6 +330,20 @@ def check_merges(spec, res, ctx):
                     res.label('merge.aliased')
         key = (m['idx'], tuple(m['path']))
         touched[tuple(m['path'])] = touched.get(tuple(m['path']), 0) + 1
+    # composites built afterwards are not affected by the merges either
+    later = new_target()
+    for k in KEYS:
+        if later[k] != {}:
+            res.fail('merge.leak', 'after the merges a composite built from '
+                     'an empty config holds %s = %r' % (k, describe(later[k])),
+                     'datum.py:__init__')
+            return
+        if later[k] is target[k]:
+            res.fail('merge.leak', 'two composites share their %s dictionary'
+                     % k, 'datum.py:__init__')
+            return
+    if spec.get('target_partial'):
+        res.label('merge.target_partial_config')
     if len(spec['merges']) >= 2 and (
             max(touched.values()) >= 2 or
             any(a != b and a[:len(b)] == b for a in touched for b in touched)):
